@@ -30,13 +30,28 @@ def active_partition(ctx, rid, f, cls):
     ok = False
     cond = None
     if len(loops) == 1:
+        # decided on the paths of the loop body: a path does something exactly when it has seen value(sigma(atom)) == True (wrapping if, early continue,
+        # `!= True` with the arms swapped are one thing)
+        from ..tables import enum_paths, path_literals
         body = loops[0]['slots']['body']
-        first = body if body.get('k') == 'IfStmt' else (body.get('c') or [None])[0]
-        if first is not None and first.get('k') == 'IfStmt':
-            cond = canon(first['slots']['cond'], env, subst=False)
-            b = loops[0]['slots']['var'].get('bindings') or [loops[0]['slots']['var'].get('name')]
-            s = show(cond)
-            ok = isinstance(cond, tuple) and cond[0] == '==' and 'smt::True' in cond and 'sat_core::value' in s and 'get_sigma' in s and first['slots'].get('else') is None and (b[0] or '') in s
+        b = loops[0]['slots']['var'].get('bindings') or [loops[0]['slots']['var'].get('name')]
+        cn = lambda n: canon(n, env, subst=False)
+        ok = True
+        seen = set()
+        for p in enum_paths(body):
+            L = path_literals(p, cn) or []
+            act = None
+            for c in L:
+                if c[0] == 'if' and isinstance(c[1], tuple) and c[1][0] == '==' and 'smt::True' in c[1][1:]:
+                    s = show(c[1])
+                    if 'sat_core::value' in s and 'get_sigma' in s and (b[0] or '') in s:
+                        act = c[2]
+                        cond = c[1]
+            live = p.live(env)
+            seen.add(act)
+            if act is None or (act is False and live) or (act is True and not live):
+                ok = False
+        ok = ok and seen == {True, False}
     ctx.instance(rid, [f.id, 'active-only'], {'function': f.id, 'filter': show(cond)})
     if not ok:
         ctx.finding(rid, f.id, 'active-only', '%s must consider exactly the atoms whose sigma is True (found filter %s): unified / inactive atoms are not on the timeline, active ones must not be skipped' % (f.name, show(cond)), loc=f.loc)
